@@ -100,6 +100,22 @@ impl Method for FixedMethod {
             Suggestion::empty()
         }
     }
+
+    #[cfg(feature = "verif")]
+    fn verif_state(&self) -> String {
+        serde_json::json!({
+            "method": "fixed",
+            "buffer": self.buffer,
+            "typed": self.typed,
+            "pending_kar": match self.pending_kar {
+                Some(PendingKar::I) => "I",
+                Some(PendingKar::E) => "E",
+                Some(PendingKar::OI) => "OI",
+                None => "",
+            },
+        })
+        .to_string()
+    }
 }
 
 impl FixedMethod {
